@@ -16,6 +16,9 @@ CLAIMED = {
  'C01': ('PBT: differential against a reference PEG interpreter (exhaustive shapes x all short inputs + hypothesis grammars)',
          'Generated-input search: every depth<=1 core expression in 13 exposing parent contexts, a seeded stride through all depth-2 shapes and hypothesis multi-rule grammars (text+bytes) are compared on all short inputs with an independent naive PEG interpreter; bounds stated in evidence. Finds wrong static flags / missing restores; proves nothing beyond the explored bounds.',
          'Trusts vlib/peg.py reference semantics (DESIGN Appendix A, self-tested on hand cases); alphabet {a,b,Z}, inputs <= 5 (9 sampled), depth <= 5.'),
+ 'C09': ('PBT: exhaustive line-length x error-column sweep + hypothesis multi-line texts through generated grammars; validity predicate (independent line/column, caret and excerpt checks)',
+         'Generated-input search: (i) complete sweep of line length 1..260 x every error column x preceding/following text shapes through three error paths (ParseError via sequence and via choice farthest-failure, PartialParseError); (ii) hypothesis core grammars (text with an ignore pattern for blanks/newlines, and bytes) on multi-line texts with lines up to 400 characters and pos >= 0. Each raised error is validated: index bounds, not beyond the foreign character, line/column recomputed, None/None iff ParseError at end of input, message numbers, two-line excerpt, caret under text[index], excerpt from the error line.',
+         'Line breaks are \\n only; part (ii) grammars are lookbehind-free.'),
  'C14': ('PBT: hypothesis recursive result trees (shared nodes, containers, same-field classes, parsed trees with metadata); independent structural equality oracle, snapshots, round-trips',
          'Generated-input search over triples of result trees: ==/!= against an independent structural predicate (incl. classes with identical field names, dicts in different insertion order), symmetry, transitivity, hash consistency (also after _replace), _asdict order/identity, _replace (new object, only given fields, metadata kept, original untouched), deepcopy (equal, no shared mutable node, same metadata), pickle round trip for a named grammar, eval(repr).',
          'NaN excluded; fields not mutated after hashing; trees <= ~16 leaves.'),
